@@ -243,6 +243,7 @@ pub enum Op {
     LockHeldAtEmission { which: &'static str },
     /// the embedder held the shared storage mutex during the poll that starts here
     EmbedderHoldsStorage,
+    EmbedderHoldsAppSet,
     StreamEnd,
     ControlIssue { req: usize, handle: usize, on_demand: bool },
     ControlReply { req: usize, reply: &'static str },
@@ -428,6 +429,8 @@ pub struct Script {
     /// bit k set: the embedder holds the shared storage mutex during the poll that follows the k-th (mod 32) event
     /// it took (an embedder writing its own keys in reaction to an event)
     pub busy_storage_mask: u32,
+    /// the same for the shared app set mutex
+    pub busy_app_set_mask: u32,
 }
 
 impl Default for Script {
@@ -457,6 +460,7 @@ impl Default for Script {
             repeat_last_http: false,
             junk_service_url: false,
             busy_storage_mask: 0,
+            busy_app_set_mask: 0,
         }
     }
 }
